@@ -23,7 +23,7 @@
     channel operations, [select] and [sync.WaitGroup] behave as the LTS' labels say is assumed, not
     proved; the correspondence check replays observed histories of the real code through the LTS. *)
 From Coq Require Import List ZArith Arith.
-From ApiFu Require Import Idle.IdleModel Idle.IdleSpec Idle.IdleProofs Idle.IdleLive Idle.IdleHist Idle.IdleFair Idle.IdleSub Idle.IdleJoint.
+From ApiFu Require Import Idle.IdleModel Idle.IdleSpec Idle.IdleProofs Idle.IdleLive Idle.IdleHist Idle.IdleFair Idle.IdleSub Idle.IdleJoint Idle.IdleJointRun.
 From ApiFu Require Fut.Plan Fut.ExecAsync Fut.ExecSync Fut.AsyncRun Fut.FutSpec Fut.FutProofs.
 Import ListNotations.
 
@@ -306,6 +306,73 @@ Theorem C15_completes_refuted_with_ctx_drop :
                  forall l, forced l = true -> step_ctxdrop current p s l = None.
 Proof. exact completes_refuted_with_ctx_drop. Qed.
 
+(** ** RESPONSE == RESPONSE OF THE SAME QUERY WITH ALL RESOLVERS SYNCHRONOUS (Go/Batch, no chaining)
+
+    The joint system: C02's executor (its root future, [ExecAsync.invoke] for every poll, its
+    promise table) with api-fu's idle handler in place of C02's oracle — [JRun p fx root jfuel cs resp]
+    (Idle/IdleJointRun.v): in every iteration of the wait loop the handler is one idle round of the
+    LTS, and what it fulfils in the executor's table is exactly that round's [deliveries]; [cs] are
+    the rounds' deliveries.  For every such run, whatever the interleaving inside the rounds: the
+    data is the data of the all-synchronous reference and the errors conform to the plan. *)
+Theorem C15_response_eq_sync : forall p fx root jfuel cs resp,
+  FutProofs.resp_depth root < jfuel ->
+  JRun p fx root jfuel cs resp ->
+  ExecAsync.r_data resp = ExecSync.sr_data (ExecSync.run_sync root) /\
+  FutSpec.conforms root (ExecAsync.r_data resp) (ExecAsync.r_errors resp).
+Proof. exact response_eq_sync. Qed.
+
+(** That the joint system's steps are the ones the two components can and must take (coupling
+    [KG st ids s]: [K] plus "the promises C02's future still awaits = the LTS' live items"), for a flat
+    Go/Batch program:
+    - the handler's round from a coupled state fulfils, in C02's table, exactly its deliveries —
+      [ExecAsync.idle] does not answer [None] — and the states stay coupled;
+    - a poll whose effect on the table is as C02's [Acct] describes is mirrored in the LTS by
+      [LCreate] of the new promises, [LConsume] of the received results and [LAbandon] of the
+      promises no longer awaited (a), and the states stay coupled with the new awaited set;
+    - (b) a pending future ([Blocked]: an awaited promise without a result) enables [LIdleEnter]; a
+      ready one (nothing awaited) enables [LEnd].
+    THE ONE MISSING LEMMA: [poll_preserves_KG] assumes of the poll that the promises it appends are
+    not done and that it adds no channel entry.  C02's [Acct] does not say so (it admits prefilled
+    promises); for plans none of whose tags is prefilled — api-fu's Go and Batch never send before
+    they return — it holds by reading ExecAsync.exec_field ([new_promise] vs [new_promise_pre]), but
+    proving it needs an induction over C02's executor closures (its [StepSpec] proofs) that was not
+    done.  [acct_provides] (IdleJoint.v) derives all the other hypotheses from [Acct]. *)
+Theorem C15_joint_round_forced : forall p, wf_items p = true -> bfun_ok p -> no_chaining p ->
+  forall fx, flat_async p -> forall st ids s m mid s',
+  KG p st ids s -> Inv p s -> Sim p s m -> st_phase s = PPoll ->
+  run fx p s (LIdleEnter :: mid ++ [LIdleExit]) = Some s' -> ~ In LIdleExit mid ->
+  exists st', ExecAsync.idle (fun _ _ => deliveries mid) st = Some st' /\ KG p st' ids s' /\
+              ExecAsync.s_round st' = S (ExecAsync.s_round st) /\ st_phase s' = PPoll.
+Proof. exact round_preserves_KG. Qed.
+
+Theorem C15_joint_poll_mirrored : forall p, wf_items p = true -> bfun_ok p ->
+  forall fx, flat_async p -> forall st st' ids ids' s m new,
+  KG p st ids s -> Inv p s -> Sim p s m -> st_phase s = PPoll ->
+  ExecAsync.s_proms st' = ExecAsync.s_proms st ++ new ->
+  (forall k pr, nth_error new k = Some pr ->
+     ExecAsync.p_id pr = length (ExecAsync.s_proms st) + k /\ ExecAsync.p_done pr = false) ->
+  (forall x, In x (ExecAsync.s_chans st') -> In x (ExecAsync.s_chans st)) ->
+  length (ExecAsync.s_proms st') <= length (p_items p) ->
+  (forall id, In id ids' -> In id ids \/ length (ExecAsync.s_proms st) <= id < length (ExecAsync.s_proms st')) ->
+  (forall x, In x (ExecAsync.s_chans st) -> ~ In x (ExecAsync.s_chans st') -> ~ In (fst x) ids') ->
+  exists tr s' m',
+    run fx p s tr = Some s' /\
+    Forall (fun l => match l with LCreate _ | LConsume _ | LAbandon _ => True | _ => False end) tr /\
+    KG p st' ids' s' /\ Inv p s' /\ Sim p s' m' /\ st_phase s' = PPoll.
+Proof. exact poll_preserves_KG. Qed.
+
+Theorem C15_joint_guards : forall p fx st ids s,
+  KG p st ids s -> st_phase s = PPoll ->
+  ((exists id, In id ids /\ id < length (ExecAsync.s_proms st) /\
+               forall ok, ~ In (id, ok) (ExecAsync.s_chans st)) ->
+   exists s', step fx p s LIdleEnter = Some s') /\
+  (ids = [] -> exists s', step fx p s LEnd = Some s').
+Proof.
+  exact (fun p fx st ids s KGH PH =>
+           conj (pending_enables_idle_enter p fx st ids s KGH PH)
+                (fun E => ready_enables_end p fx st s (eq_ind ids (fun i => KG p st i s) KGH [] E) PH)).
+Qed.
+
 (** The defect of the pinned tree, kept as a witness: without the executionDone case a request
     ({slow bad}: a Go field whose promise is abandoned) reaches a state in which the request has
     returned, a goroutine sits at its send, and nothing can ever move again. *)
@@ -327,6 +394,10 @@ Print Assumptions C15_completes.
 Print Assumptions C15_no_leak.
 Print Assumptions C15_drains.
 Print Assumptions C15_no_leak_refuted_before_fix.
+Print Assumptions C15_response_eq_sync.
+Print Assumptions C15_joint_round_forced.
+Print Assumptions C15_joint_poll_mirrored.
+Print Assumptions C15_joint_guards.
 Print Assumptions C15_completes_refuted_with_ctx_drop.
 Print Assumptions C15_one_reader_per_promise.
 Print Assumptions C15_deadlock_refuted_when_promise_has_two_chains.
